@@ -221,8 +221,10 @@ int cholnzcnt(int_t neqns, int_t *xadj, int_t *adjncy,
 	   ---------------------------------------------------- */
 	parent = etpar[lownbr];
 	--weight[parent];
-	if (lflag == 1 || nchild[lownbr] >= 2) {
-	    /* lownbr is the first vertex of a supernode */
+	if (lflag == 1 || nchild[lownbr] >= 2 || nchild[lownbr] == 0) {
+	    /* lownbr is the first vertex of a supernode; a leaf of the etree
+	       always is, also when it has no higher neighbor at all (an
+	       isolated vertex of A'+A) and is therefore nobody's leaf */
 	    part_super_L[xsup] = lownbr - xsup;
 	    xsup = lownbr;
 	}
